@@ -76,6 +76,29 @@ n = len(rows) - 2
 first_caught = sum(1 for v in hist.values() if v.get("first") == "caught")
 first_caught = sum(1 for v in hist.values() if v.get("first", "").startswith("caught"))
 put("SEEDTABLE", "\n".join(rows) + "\n\n%d seeded changes kept; %d were reported by the check of their own property as it stood when the seed arrived." % (n, first_caught))
+# refactor table (behaviour-preserving changes by independent sub-agents)
+rdir = os.path.join(V, "seeded", "refactors")
+if os.path.exists(os.path.join(rdir, "RESULTS.json")) and "<!-- REFTABLE:BEGIN -->" in d:
+    res = json.load(open(os.path.join(rdir, "RESULTS.json")))
+    fcs = {}
+    for name in ("FIRST_CONTACT.json", "FIRST_CONTACT_2.json"):
+        if os.path.exists(os.path.join(rdir, name)):
+            fcs.update(json.load(open(os.path.join(rdir, name))))
+    rrows = ["| refactor | kind (sub-agent's words) | first contact | final tree |", "|---|---|---|---|"]
+    n_first = n_final = 0
+    for k in sorted(res):
+        v = res[k]
+        fc = fcs.get(k, {})
+        first = "silent" if fc.get("first") == "silent" else ("alarm: " + ", ".join(r.split("-", 1)[0] + "-" + r.split("-")[1] for r in fc.get("rules", [])[:4]) if fc else "—")
+        if fc.get("first") == "alarm":
+            n_first += 1
+        fin = "silent" if not v.get("alarms") and not v.get("error") else ("alarm: " + ", ".join(sorted(v.get("alarms", {}))) if v.get("alarms") else "n/a (%s)" % v.get("error", "")[:40])
+        if v.get("alarms"):
+            n_final += 1
+        rrows.append("| %s | %s | %s | %s |" % (k, (v.get("kind") or "").replace("|", "\\|")[:110], first, fin))
+    put_txt = "\n".join(rrows) + "\n\n%d refactors stored; %d raised an alarm when they arrived; %d raise one on the final tree." % (len(res), n_first, n_final)
+    b_, e_ = "<!-- REFTABLE:BEGIN -->", "<!-- REFTABLE:END -->"
+    d = d[:d.index(b_) + len(b_)] + "\n" + put_txt + "\n" + d[d.index(e_):]
 # per-property "as built" line under each §5 heading
 kf = collections.Counter(); fx = collections.Counter()
 for l in open(os.path.join(V, "KNOWN_FINDINGS.txt")):
